@@ -314,6 +314,9 @@ func RunSteps(t *rapid.T, s *sc.Scenario, pr Profile) *sc.History {
 	var hold *sc.Step
 	if len(pr.Holds) > 0 && pct(t, 65, "prehold?") {
 		h := sc.Step{Op: sc.OpHold, Point: pick(t, pr.Holds, "holdpoint"), Proc: pick(t, s.Procs, "holdproc").Name}
+		if h.Point == "run.prepare" {
+			h.Proc = "" // a point of the project, before any process is registered
+		}
 		s.PreHolds = append(s.PreHolds, h)
 		hold = &h
 	}
